@@ -23,7 +23,7 @@ ROOT = os.path.dirname(os.path.dirname(os.path.dirname(os.path.abspath(__file__)
 
 def sizes(ctx):
     if ctx.quick:
-        return dict(core=900, excon=350, nola=120, wide=60, flags=200, fusion=150)
+        return dict(core=900, excon=350, nola=120, wide=60, flags=120, fusion=150)
     return dict(core=17000, excon=6000, nola=1200, wide=800, flags=4000, fusion=3000)
 
 def gen_cases(ctx):
@@ -61,8 +61,9 @@ def gen_cases(ctx):
         cases.append(c)
     # alt-translation flags (Model/SpecAlt.v)
     for i in range(n.get('flags', 0)):
-        c = CG.gen_case(rng, coding_p=0.85)
         sect, w2f = rng.choice([(True, False), (False, True), (True, True)])
+        # with the Sec flag on, 40 % of the cases carry two Sec codons in one uncleaved stretch + an in-frame indel
+        c = CG.gen_twosec_case(rng) if (sect and rng.random() < 0.4) else CG.gen_case(rng, coding_p=0.85)
         c['runs'] = [CG.gen_run(rng, rule='trypsin', exc_on=False, sect=sect, w2f=w2f)]
         c['stream'] = 'flags'
         cases.append(c)
@@ -81,6 +82,8 @@ def corpus_cases():
         c = o['case']
         c['stream'] = 'corpus:' + os.path.basename(f)
         c['repeat'] = o.get('repeat', 1)
+        if o.get('expect'):
+            c['expect'] = o['expect']       # positive regression: these peptides must be in the FASTA
         out.append(c)
     return out
 
@@ -96,16 +99,16 @@ def judge(evs, violations, stats, reps=None):
             violations.append({'what': 'callVariant aborts while building the fusion graph (ValueError in expand_alignments): nothing is reported',
                                'replay_obj': CK.replay_obj(ev, 'crash'), 'no_input': False, 'finding': CK.F_FUSCRASH})
             continue
-        if ev.exc and CK.is_end_inclusion_crash(ev):
-            stats['end_inclusion_crash'] += 1
-            violations.append({'what': 'callVariant aborts in VariantRecord.to_end_inclusion (IndexError): nothing is reported',
-                               'replay_obj': CK.replay_obj(ev, 'crash'), 'no_input': False, 'finding': CK.F_ENDINCL})
-            continue
         if ev.exc:
             violations.append({'what': 'callVariant aborted with %s: nothing is reported (%s; rule %s)' % (
                                    ev.exc['__exc__'], ev.exc.get('msg', '')[:120], ev.run['rule']),
                                'replay_obj': CK.replay_obj(ev, 'crash'), 'no_input': False})
             continue
+        lost = [p for p in ev.case.get('expect', []) if p not in ev.got]
+        if lost:
+            violations.append({'what': 'regression case %s: peptide(s) %s that the unchanged tool reports are no longer in the FASTA' % (
+                                   ev.case.get('stream'), lost),
+                               'replay_obj': dict(CK.replay_obj(ev, 'regress'), expect=ev.case['expect']), 'no_input': False})
         stats['must_peptides'] += len(ev.must)
         stats['out_peptides'] += len(ev.got)
         stats['slack_out_minus_must'] += len(set(ev.got) - ev.must)
@@ -216,6 +219,8 @@ def run(ctx):
 def replay(ctx, obj):
     c = obj['case']
     c['stream'] = 'core' if obj.get('what') == 'collapse' else obj.get('what', 'replay')
+    if obj.get('expect'):
+        c['expect'] = obj['expect']
     n = int(obj.get('repeat', 4))      # the engine is order dependent on some inputs: repeat
     stats = collections.Counter(); violations = []
     judge(CK.run_batch(ctx, [json.loads(json.dumps(c)) for _ in range(n)], tag='c01r'), violations, stats)
